@@ -223,3 +223,18 @@ def run(ctx):
     ctx.assumptions += ["il2c.py + gcc execute the IL (bound to QbeMachine.tla on the sampled programs each run)",
                         "non-integral floating values, long double, volatile, _Atomic, unions are outside MiniC (see DESIGN.md §6, §11.2)",
                         "programs with undefined behaviour (as decided by CSem) are discarded"]
+
+
+def replay(ctx, path):
+    """Re-judge one recorded violation (random-program and Refine keys carry the MiniC AST) on the current tree."""
+    import c01_progs
+    case = json.load(open(path)).get("case", {})
+    if "prog" not in case:
+        print("replay: this violation kind carries no program AST (operation cases are re-run by the quick tier)")
+        return 2
+    objdir = vlib.build("plain")
+    runtime = ctx.path("rt.c")
+    open(runtime, "w").write(RUNTIME)
+    c01_progs.random_programs(ctx, objdir, runtime, only=[(case["prog"], case.get("target", "x86_64-sysv"))])
+    print("verdict:  " + ("still fails" if ctx.violations else "agrees with the C abstract machine (CSem) on the current tree"))
+    return 1 if ctx.violations else 0
